@@ -43,22 +43,21 @@ Fixpoint lstrip (t : text) : text :=
   match t with c :: r => if is_space c then lstrip r else t | [] => [] end.
 Definition strip (t : text) : text := rev (lstrip (rev (lstrip t))).
 
-(* str.splitlines(keepends=True) *)
+(* str.splitlines() (no keepends): pieces without their terminator *)
 Definition is_sep (c : N) : bool := existsb (N.eqb c) [10;11;12;13;28;29;30;133;8232;8233]%N.
-Fixpoint splitk (cur : text) (s : text) : list text :=
+Fixpoint splitn (cur : text) (s : text) : list text :=
   match s with
   | [] => match cur with [] => [] | _ => [rev cur] end
   | c :: r =>
       if N.eqb c 13 then
         match r with
-        | c2 :: r' => if N.eqb c2 10 then rev (10%N :: 13%N :: cur) :: splitk [] r'
-                      else rev (13%N :: cur) :: splitk [] r
-        | [] => [rev (13%N :: cur)]
+        | c2 :: r' => if N.eqb c2 10 then rev cur :: splitn [] r' else rev cur :: splitn [] r
+        | [] => [rev cur]
         end
-      else if is_sep c then rev (c :: cur) :: splitk [] r
-      else splitk (c :: cur) r
+      else if is_sep c then rev cur :: splitn [] r
+      else splitn (c :: cur) r
   end.
-Definition splitlines_keep (s : text) : list text := splitk [] s.
+Definition splitlines (s : text) : list text := splitn [] s.
 
 Fixpoint prefix_b (p t : text) : bool :=
   match p, t with
@@ -153,7 +152,8 @@ Definition header_text (root : option text) : text :=
 
 Definition tb_header : text := a "Traceback (most recent call last):" ++ nl.
 Definition err_sublines (raw : list text) : list text :=
-  flat_map (fun l => if text_eqb l tb_header then [] else splitlines_keep l) raw.
+  (* `for subline in line.splitlines(): yield "  " + subline + "\n"` *)
+  flat_map (fun l => if text_eqb l tb_header then [] else map (fun p => p ++ nl) (splitlines l)) raw.
 Definition err_title : text := a "Error while extracting stack:" ++ nl.
 
 Definition frame_header (f : frame) : text :=
